@@ -160,12 +160,14 @@ def render(printed):
 def _num(x):
     """numerator of halves of an exactly representable number, GARBAGE otherwise."""
     y = float(x) * 2.0
-    return int(y) if y == int(y) and abs(y) < 10 ** 8 else GARBAGE
+    return int(y) if abs(y) < 10 ** 8 and y == int(y) else GARBAGE      # (NaN and infinities are GARBAGE)
 
 
 def _sig(value, error):
     """numerator (halves) of the sigma% such that error = value * sigma / 100, GARBAGE if there is none."""
     value, error = float(value), float(error)
+    if not (abs(value) < float('inf') and abs(error) < float('inf')):
+        return GARBAGE
     if value == 0.0:
         return 0 if error == 0.0 else GARBAGE
     sn = round(error / value * 200.0)
